@@ -877,6 +877,14 @@ class PathEval:
                     self._finish(out, blocks, events, ("diverge", bb), st)
                     return
                 alts = self._desugar(path, args, tuple(f.get("gargs", ())), bb) if self.desugar else None
+                if alts is None and len(args) == 2 and ((path.rsplit("::", 1)[-1] in ("call", "call_mut", "call_once") and ("ops::Fn" in path or "function::Fn" in path))
+                                                        or (self.fx.fns.get(path) or {}).get("kind") == "Closure"):
+                    # a local closure called directly is a local helper: splice its body in (none exists in the tree the rules were written against)
+                    tup = args[1]
+                    if isinstance(tup, tuple) and tup and tup[0] == "agg" and tup[1] == "tuple":
+                        cand = self._apply(args[0], tup[4], bb)
+                        if not (len(cand) == 1 and isinstance(cand[0][2], tuple) and cand[0][2][:2] == ("call", "closure-apply")):
+                            alts = cand
                 if alts is not None:
                     events = events[:-1]
                     for (aevents, afacts, aval) in alts:
